@@ -28,3 +28,40 @@ func validateMaps(env *Environment, errorSink *validation.ErrorSink) *Environmen
 
 	return env
 }
+
+// validateMaps runs before type resolution and cannot judge a key that is a named type.
+// This pass repeats the check once all references are resolved, including the keys that
+// result from generic type arguments.
+func validateResolvedMapKeys(env *Environment, errorSink *validation.ErrorSink) *Environment {
+	if len(errorSink.Errors) > 0 {
+		// Only perform this if all types are resolved
+		return env
+	}
+
+	VisitWithContext(env, false, func(self VisitorWithContext[bool], node Node, visitingReference bool) {
+		switch t := node.(type) {
+		case *Map:
+			switch kt := GetUnderlyingType(t.KeyType).(type) {
+			case *SimpleType:
+				switch kt.ResolvedDefinition.(type) {
+				case PrimitiveDefinition, *EnumDefinition, *GenericTypeParameter:
+				default:
+					errorSink.Add(validationError(t, "map key type must be a primitive scalar type"))
+				}
+			default:
+				errorSink.Add(validationError(t, "map key type must be a primitive scalar type"))
+			}
+			self.VisitChildren(node, visitingReference)
+		case *SimpleType:
+			if len(t.ResolvedDefinition.GetDefinitionMeta().TypeArguments) > 0 {
+				// Check the referenced type with the type arguments provided
+				self.Visit(t.ResolvedDefinition, true)
+			}
+			self.VisitChildren(node, visitingReference)
+		default:
+			self.VisitChildren(node, visitingReference)
+		}
+	})
+
+	return env
+}
